@@ -167,5 +167,16 @@ def run_scenario(scn):
         d2 = ImplicitDistribution(f, n_samples=P.get("n", 20), _seed=seed)
         ex = d2.expectation(lambda e: len(str(e)))
         d3 = ImplicitDistribution(f, n_samples=P.get("n", 20), _seed=seed).marginalize(lambda e: str(e)[:1])
-        return digest({"items": items, "expectation": ex, "marginal": dict(d3.items()), "samples": [d3.sample() for _ in range(5)]})
+        # conditioning by rejection: predicates may answer with any truthy / falsy value (bool, 0/1, a likelihood-like float)
+        short = lambda e: len(str(e)) <= 1
+        pred = {"bool": short, "int": lambda e: 1 if short(e) else 0,
+                "frac": lambda e: 0.5 if short(e) else 0.25, "frac0": lambda e: 0.75 if short(e) else 0.0}[P.get("pred", "bool")]
+        cond = []
+        try:
+            d4 = ImplicitDistribution(f, n_samples=P.get("n", 20), _seed=seed).condition(pred)
+            cond = [d4.sample() for _ in range(6)] + [d4.sample(rng=random.Random(seed)) for _ in range(2)]
+        except ValueError as e:
+            cond = ["ValueError"]
+        return digest({"items": items, "expectation": ex, "marginal": dict(d3.items()), "samples": [d3.sample() for _ in range(5)],
+                       "conditioned": cond})
     raise ValueError(comp)
